@@ -264,6 +264,8 @@ func exec(op string) vlib.Res {
 		return execL3Zone(a)
 	case "l3shed":
 		return execL3Shed(a)
+	case "nss":
+		return execNss(a)
 	}
 	if fc == nil {
 		return vlib.Res{Impl: "nocache"}
